@@ -88,7 +88,11 @@ def gen_file(rng):
         lines.append("# x0: 0")
     if rng.random() < 0.15:
         lines.insert(rng.randrange(len(lines) + 1), rng.choice(["#", "# ", "# written by a script"]))      # comment lines among the metadata lines
+    late_meta = []
+    if lines and rng.random() < 0.3:          # metadata lines are recognised wherever they stand: here they follow the column header
+        late_meta, lines = [l for l in lines if ":" in l], [l for l in lines if ":" not in l]
     lines.append(rng.choice([" ", "\t", "  "]).join(header))
+    lines.extend(late_meta)
     lexed = []
     for (a, b, s, vals) in rows:
         toks = []
